@@ -91,6 +91,7 @@ let run (toks : string list) : string =
       let k = Hashtbl.length keyids + 1 in Hashtbl.add keyids name k; n_of_int k in
     let out = ref [] in
     let emit s = out := s :: !out in
+    let takeback : (string, bool) Hashtbl.t = Hashtbl.create 4 in
     let cb_seen = ref 0 and ev_seen : (string, int) Hashtbl.t = Hashtbl.create 8 in
     let step o = let (w', r) = Hap.step Hap.fixed !w o in w := w'; r in
     let tr c = if Hashtbl.find_opt secured c = Some true then Hap.TSession else Hap.TPlain in
@@ -106,6 +107,7 @@ let run (toks : string list) : string =
           ignore (step (Hap.OConnect (conn c)))
         | ["K"; c] -> if Hashtbl.mem cnum c then (ignore (step (Hap.OClose (conn c))); Hashtbl.replace dead c true)
         | ["W"] -> ()
+        | ["TB"; id] -> Hashtbl.replace takeback id true
         | "GCB" :: _ -> ()      (* a read callback of the application: not consulted by writes, sets and notifications *)
         | ["ST"] -> emit ("stored=" ^ String.concat "+" (L.sort compare (L.map (fun (n, _) -> hx n) (ctrl_store ()))))
         | ["TXT"] -> emit ("sf=" ^ (if ctrl_store () = [] then "1" else "0"))
@@ -272,7 +274,9 @@ let run (toks : string list) : string =
             let e = if ev = "-" then None else if ev = "1" then Some (Hap.EvBool true) else if ev = "0" then Some (Hap.EvBool false) else Some Hap.EvOther in
             emit ("P=" ^ (match req c (Hap.ECharsPut [((cid_of id, vv), e)]) with
                 | Hap.RNoContent -> "204:" | Hap.RChars (st, es) -> Printf.sprintf "%d:%s" (int_of_n st) (entries_str es)
-                | Hap.RRefused470 -> "470" | r -> resp_tlv r))
+                | Hap.RRefused470 -> "470" | r -> resp_tlv r));
+            (* an application callback that takes a remote "true" back: a local set of false right after the write *)
+            if Hashtbl.mem takeback id && vv = Some (Charac.VBool true) then ignore (step (Hap.OLocalSet (cid_of id, Charac.VBool false)))
           end
         | ["R"; c; ctrl; what] ->
           if not (alive c) then emit "R=noconn" else
